@@ -48,6 +48,7 @@ type c19cfg struct {
 	prefixExhaustive bool
 	dumpLen int
 	periodic bool
+	big     int // >0: every answer is padded to about this many bytes (blocks of 128 entries grow past the block size limit)
 }
 
 func c19Setup(rc *RunCtx) simrt.Config {
@@ -62,6 +63,12 @@ func c19Setup(rc *RunCtx) simrt.Config {
 	c.enospc = c.via == 0 && r.Choose(4) == 0
 	c.flips = []int{0, 1, 3, 16}[r.Choose(4)]
 	c.periodic = r.Choose(8) == 0
+	if !c.periodic && r.Choose(10) == 0 {
+		c.big = []int{4500, 9000, 20000, 60000}[r.Choose(4)]
+		c.n = []int{20, 100, 128, 130, 200}[r.Choose(5)]
+		c.flips = 0
+	}
+	rc.Cfg["big_answers"] = c.big
 	rc.Cfg["periodic_dump_crash"] = c.periodic
 	rc.Cfg["strategy"] = sname
 	rc.Cfg["kind"] = "cache plugin dump/load"
@@ -280,6 +287,14 @@ func c19Main(rc *RunCtx) {
 			q.SetEdns0(1232, simrt.Choose(2) == 0)
 		}
 		ans := genAnswer(rc.R, q, ttls, true)
+		if c.big > 0 && ans.Rcode == dns.RcodeSuccess {
+			ttl := ttls[simrt.Choose(len(ttls))]
+			for k := 0; ans.Len() < c.big-300; k++ {
+				ans.Answer = append(ans.Answer, &dns.TXT{Hdr: dns.RR_Header{Name: q.Question[0].Name, Rrtype: dns.TypeTXT, Class: q.Question[0].Qclass, Ttl: ttl},
+					Txt: []string{fmt.Sprintf("%03d", k%1000) + strings.Repeat(string(rune('a'+i%26)), 247)}})
+			}
+			simrt.Probe("c19.big_answer")
+		}
 		cacheFill(A, q, ans)
 		cacheFill(A2, q, ans)
 		qs = append(qs, q)
